@@ -319,9 +319,62 @@ def evaluate(inp: dict) -> dict:
     return {"props": props, "tags": tags, "impl": impl, "model": ans["model"], "proc": pj}
 
 
+EX_PROCS = 40          # catalogue size of the small-scope exhaustive family (thorough tier)
+EX_REGS = ["R0", "R1"]
+
+
+def ex_forms(incaps):
+    """every instruction over 2 registers: destination x subset of sources x offered capability (at most 2)"""
+    forms = []
+    for cap in incaps[:2]:
+        for dst in EX_REGS:
+            for srcs in ([], ["R0"], ["R1"], ["R0", "R1"]):
+                forms.append({"srcs": srcs, "dst": dst, "cap": cap})
+    return forms
+
+
 def cases(tier: str) -> list:
     n = 10000 if tier == "quick" else 150000
-    return list(range(n))
+    cs = list(range(n))
+    if tier == "thorough":
+        # small scope, exhaustively: every program of up to 3 instructions over 2 registers on a catalogue of small
+        # well-formed processors (one case id per (processor, first instruction) so that work is spread evenly)
+        step = len(cs) // EX_PROCS
+        for pi in range(EX_PROCS):          # spread over the chunks of the process pool
+            cs.insert(pi * (step + 1), ["ex", pi])
+    return cs
+
+
+def ex_case(case, tier):
+    """all programs of length <= 3 for catalogue processor `pi`; returns one record per program via {"multi": …}"""
+    import itertools
+
+    core.install_repo()
+    pi = case[1]
+    rng = core.case_rng(NAME, "excat:%d" % pi)
+    family = ["small", "wide", "widechain", "parts"][pi % 4]
+    for _ in range(200):
+        units, edges, caps = gen_units(rng, family)
+        if len(units) > 4:
+            continue
+        edges = {(a, b) for (a, b) in edges if set(units[a]["caps"]) & set(units[b]["caps"])}
+        if py_wf(units, edges, caps):
+            break
+    proc = build_from_parts(rng, units, edges)
+    pj = proc_json(proc)
+    incaps = sorted({c for m in list(proc.in_ports) + list(proc.in_out_ports) for c in m.capabilities})
+    forms = ex_forms(incaps)
+    out = []
+    for k in range(0, 4):
+        for prog in itertools.product(forms, repeat=k):
+            inp = {"proc": pj, "prog": list(prog)}
+            res = evaluate(inp)
+            rec = {"case": ["ex", pi, len(out)], "family": "exhaustive", "digest": hashlib.sha1(json.dumps(inp, sort_keys=True).encode()).hexdigest(),
+                   "tags": res["tags"] + ["exhaustive"], "props": res["props"]}
+            if any(r["app"] and (not r["k"] or r["o"] is not None) for r in res["props"].values()):
+                rec["input"], rec["impl"], rec["model"] = inp, res["impl"], res["model"]
+            out.append(rec)
+    return {"multi": out}
 
 
 def gen_input(case, tier="quick"):
@@ -349,6 +402,8 @@ def gen_input(case, tier="quick"):
 
 
 def run_case(case, tier="quick") -> dict:
+    if isinstance(case, list) and case and case[0] == "ex":
+        return ex_case(case, tier)
     family, inp = gen_input(case, tier)
     res = evaluate(inp)
     digest = hashlib.sha1(json.dumps(inp, sort_keys=True).encode()).hexdigest()
